@@ -295,6 +295,26 @@ class Renderer:
 # reference semantics
 # ---------------------------------------------------------------------------------------------
 
+def _unqualified_tables(q):
+    if isinstance(q, Sel):
+        for j in q.frm:
+            if isinstance(j.item, Tab):
+                if j.item.schema is None:
+                    yield j.item
+            else:
+                yield from _unqualified_tables(j.item.q)
+        for sub in ([q.where_in[1]] if q.where_in else []) + [q.where_exists, q.having_scalar]:
+            if sub is not None:
+                yield from _unqualified_tables(sub)
+    elif isinstance(q, SetOp):
+        for b in q.branches:
+            yield from _unqualified_tables(b)
+    elif isinstance(q, With):
+        for _, b in q.ctes:
+            yield from _unqualified_tables(b)
+        yield from _unqualified_tables(q.body)
+
+
 class Unres:
     """an unresolved column: several relations in scope, nothing disambiguates"""
 
@@ -348,9 +368,15 @@ class Oracle:
             return res
         if isinstance(q, With):
             ctes = list(ctes)
-            for (n, b) in q.ctes:
-                for (n2, _) in ctes:
-                    pass
+            for i, (n, b) in enumerate(q.ctes):
+                # a non-recursive CTE's name is not visible in its own body nor in earlier bodies; whether an unqualified
+                # table of that name there is the base table (standard) or a self reference (dialects with implicit
+                # recursion) is ambiguous: names assumed apart
+                for t in _unqualified_tables(b):
+                    for k in range(i, len(q.ctes)):
+                        if t.name != q.ctes[k][0]:
+                            self.assume_distinct(self.v(t.name), self.v(q.ctes[k][0]),
+                                                 "a CTE does not read an unqualified table of its own (or a later CTE's) name")
                 ctes.append((n, self.query(b, ctes)))
             # CTE names in one WITH are distinct (SQL validity)
             for i in range(len(q.ctes)):
@@ -433,6 +459,9 @@ class Oracle:
                         hits += ss
         if hits:
             return hits
+        # the same base table joined to itself under different aliases: whichever copy is meant, the column is that table's
+        if all(r[0] == "table" for r in rels) and all(bool(r[1] == rels[0][1]) for r in rels[1:]):
+            return [(rels[0][1], nm)]
         return [Unres(nm, [r for r in rels])]
 
     def from_rel(self, r, nm):
